@@ -102,7 +102,7 @@ PROPS["C02"] = dict(
     title="routing: first match wins, default deny, nothing leaks",
     level="exploration",
     technique="runtime differential monitor: reference first-match router with harness-computed filter truth vs. the real rules engine + process_request observed through recording connectors; cidr_match vs bitwise containment; the same oracle end to end over real listeners (IPv4 and IPv6), /api/rules, /api/history and origin-side observation of refused requests",
-    text="Builds the real GlobalState (rules::from_config + set_rules, recording connectors with random feature sets, a real load balancer) and runs generated requests through the real process_request. Rule lists of length 0..12 with duplicates, deny and filterless rules anywhere and filters drawn from a template family (==/!= on every request attribute, port ==/>=/_:, =~ literals, cidr_match, &&/||/!, and filters that error at run time) whose true/false/error value the harness computes itself. Oracle: connect() runs on exactly the connector the reference router names, on none at all when it refuses (deny, no match, missing feature), refusals are recorded as errors; cidr_match is compared with an independent bitwise containment on a dense IPv4/IPv6 grid.",
+    text="Builds the real GlobalState (rules::from_config + set_rules, recording connectors with random feature sets, a real load balancer) and runs generated requests through the real process_request. Rule lists of length 0..12 with duplicates, deny and filterless rules anywhere and filters drawn from a template family (==/!= on every request attribute, port ==/>=/_:, =~ literals, cidr_match, &&/||/! written fully parenthesised or with table-minimal parentheses, and filters that error at run time) whose true/false/error value the harness computes itself. Oracle: connect() runs on exactly the connector the reference router names, on none at all when it refuses (deny, no match, missing feature), refusals are recorded as errors; cidr_match is compared with an independent bitwise containment on a dense IPv4/IPv6 grid.",
     note="trusted: the harness truth functions for the filter templates; only canonical CIDRs are generated (the cidr crate rejects others at parse time)",
     design_ref="DESIGN.md 3 C02",
     steps=[inproc("c02"), e2e("c02")],
@@ -122,7 +122,7 @@ PROPS["C17"] = dict(
     title="load-balancer selection laws",
     level="exploration",
     technique="runtime monitor on the real LoadBalanceConnector with recording members: window/histogram, group-by-key and membership checks under sequential and 16-task concurrent selection",
-    text="The balancer is built from YAML through from_value/init/verify for n=1..8 members. Round robin: every window of n sequential selections hits each member once and 16 concurrent tasks on the multi-thread runtime share k*n selections exactly evenly; hashBy over 8 string-typed key expressions: requests with equal key value (incl. equal strings from different target representations) go to one member; random: only members, every member hit in 1000*n draws; the connector recorded in the context equals the member whose connect ran; nested balancers stay inside their members.",
+    text="The balancer is built from YAML through from_value/init/verify for n=1..8 members. Round robin: every window of n sequential selections hits each member once and 16 concurrent tasks on the multi-thread runtime share k*n selections exactly evenly; hashBy over 8 string-typed key expressions: requests with equal key value (incl. equal strings from different target representations) go to one member, sequentially and from 16 tasks running concurrently on the worker threads; random: only members, every member hit in 1000*n draws; the connector recorded in the context equals the member whose connect ran; nested balancers stay inside their members.",
     note="trusted: harness computation of the key strings; false-alarm probability of the random coverage test < e^-1000",
     design_ref="DESIGN.md 3 C17",
     steps=[inproc("c17")],
@@ -132,7 +132,7 @@ PROPS["C15"] = dict(
     title="rule hot-reload is atomic and all-or-nothing",
     level="exploration",
     technique="history checker: single-register linearizability of (replacement, request decision) histories with versioned rule lists whose torn evaluations produce a decision no list gives; all-or-nothing checks around every rejected replacement",
-    text="In-process: one task replaces the 14-rule list through the real set_rules at full speed, mixing in invalid lists (syntax error, type error, unknown field, unknown target at a random position), while 16 tasks run the real process_request on the multi-thread runtime; every decision must equal the decision of a version that was current during the request's interval (last completed before it began, or overlapping it). Sequentially, every rejected replacement must leave GET /rules and the next decision unchanged, a successful one must decide the very next request, and read-then-post must change nothing. End-to-end: the same through POST /api/rules on the shipped binary.",
+    text="In-process: one task replaces the 14-rule list through the real set_rules at full speed, mixing in invalid lists (syntax error, type error, unknown field, unknown target at a random position, in rules bound to an upstream or to deny), while 16 tasks run the real process_request on the multi-thread runtime; every decision must equal the decision of a version that was current during the request's interval (last completed before it began, or overlapping it). Sequentially, every rejected replacement must leave GET /rules and the next decision unchanged, a successful one must decide the very next request, and read-then-post must change nothing. End-to-end: the same through POST /api/rules on the shipped binary.",
     note="trusted: monotonic clock ordering of call/return stamps; version decisions repeat every 8 versions",
     design_ref="DESIGN.md 3 C15",
     steps=[inproc("c15"), e2e("c15")],
